@@ -345,7 +345,10 @@ def reviewedHashIterSites : List Str := [
   -- set afterwards (that set is iterated by the `use_list` template macro: `usesIterSorted`)
   cs! "sourceform.py:FortranCodeUnit.correlate: for self.uses",
   cs! "sourceform.py:FortranBlockData.correlate: for self.uses",
-  cs! "sourceform.py:FortranBlockData.correlate: comprehension self.uses"
+  cs! "sourceform.py:FortranBlockData.correlate: comprehension self.uses",
+  -- (added by fix bbe7689) the loop only deletes the entries of `attr_dict` under the collected names
+  -- (`del self.attr_dict[name]` under `suppress(KeyError)`): deletions of distinct keys commute
+  cs! "sourceform.py:FortranCodeUnit.process_attribs: for attributed_names"
 ]
 
 /-- unsorted sites whose order does reach the output: each is an open finding of `known_findings/C12.json` -/
